@@ -164,3 +164,45 @@ prop(
     design_ref="§8 C14",
     assumptions=["reply counters are at most i64::MAX (serde_bencode integers)", "the key field is read within the parser's documented 100-byte cap"],
 )
+
+prop(
+    "C06",
+    module="Aquatic.Props.C06",
+    extra_modules=["Aquatic.Props.C13"],
+    technique="Lean 4 proof over all datagrams, sources and configurations of the per-datagram decision of both socket back ends + socket-level differential runs against the real tracker process (mio and io_uring)",
+    runs=[dict(harness="udpnet", driver="udpnet", quick=dict(cases=6), thorough=dict(cases=60))],
+    nontrivial=["id-stale", "id-foreign", "id-forged", "reply-error", "announce+extension", "uring>cap", "reply-scrape"],
+    level_text="Theorems for every datagram, source address and port, limit and validity oracle: a source holding no valid connection id obtains nothing or the 16-byte connect reply to a datagram of at least 16 bytes (both back ends); a non-connect reply implies that the id carried by the datagram is valid for the canonical source; port 0 is ignored; well-formed connect / announce / scrape requests (with any trailing extension bytes) get exactly the reply kind the request calls for with its transaction id, announces of the sender's family, scrapes cut to the first max_scrape_torrents hashes in order; invalid ids and unparseable datagrams get silence; io_uring decides like mio on every datagram its receive buffer holds. The full statement fails for io_uring beyond that (negation proved with a 24-hash scrape: finding F6). Tie: a tracker child process per case on loopback, several client sockets at once, every reply matched to the socket it arrived on and compared with the model's decision.",
+    level_note="partial for the runtime part: kernel delivery, EWOULDBLOCK resend queue and the source address the kernel reports are exercised by the runs, not modelled. Trusted: validity oracle = C05's theorem; access list = C11's.",
+    design_ref="§8 C06",
+    assumptions=["stale ids are produced on the mio back end only (the io_uring back end refreshes its clock by timer; same validator code)",
+                 "replies are awaited for a bounded time; silence = no datagram within that time"],
+)
+
+prop(
+    "C16",
+    module="Aquatic.Props.C16",
+    extra_modules=["Aquatic.Props.Store"],
+    technique="Lean 4 proof (reply framing in the reused growing buffer for every body and prior buffer content; n routed swarm workers refine one reference tracker for announce / scrape / clean) + socket-level differential runs against the real tracker process over worker counts, keep-alive and TCP segmentation",
+    runs=[dict(harness="httpnet", driver="store", quick=dict(cases=24), thorough=dict(cases=240))],
+    nontrivial=["scrape-nonzero", "scrape-truncated", "re-announce", "small->large", "stopped"],
+    level_text="Theorems: for every body and every buffer satisfying the header invariant (whatever an earlier longer or shorter reply left in it) the bytes written are the status line, a Content-Length of |body|+2 padded with blanks, the blank line, the whole body and CRLF, the length parses back to the number of bytes that follow, and the invariant is re-established, hence every reply of a connection in order; for every number n > 0 of swarm workers, announces routed by the first hash byte, scrapes split per worker after the whole-request cut to max_scrape_torrents and merged, and per-worker cleaning keep the n stores in simulation with the restrictions of ONE reference tracker and return its replies. Tie: a tracker child process per case (socket_workers x swarm_workers in {1,2,3}^2, keep-alive on/off, requests split over TCP segments), each reply's head compared byte-for-byte with the model's writeResponse, its content with the reference tracker.",
+    level_note="partial for the runtime part: TCP, SO_REUSEPORT balancing, glommio scheduling, request accumulation across segments are exercised only. The header literals are regenerated from connection.rs.",
+    design_ref="§8 C16",
+    assumptions=["Content-Length below 10^8 (8 digit cells; 100 MB reply)", "requests on one connection are sent after the previous reply arrived (as the property states)"],
+)
+
+prop(
+    "C18",
+    module="Aquatic.Props.C18",
+    extra_modules=["Aquatic.Props.C06", "Aquatic.Props.C16"],
+    technique="Lean 4 proof (reply sizes derived from the codec model; the start-up validation implies every reply of an accepted configuration fits the send buffer of the back end, refuses nothing that fits, accepts the defaults; HTTP frame carries the whole body for any length) + socket-level boundary runs against the real tracker process",
+    runs=[dict(harness="udpnet", driver="udpnet", quick=dict(cases=6), thorough=dict(cases=48)),
+          dict(harness="httpnet", driver="store", quick=dict(cases=8), thorough=dict(cases=80))],
+    nontrivial=["big", "refused", "scrape-nonzero", "scrape-truncated", "uring>cap"],
+    level_text="Theorems: the length of every serialised UDP reply equals the formula used (from the regenerated layouts); for every max_response_peers / max_scrape_torrents the start-up check accepts, every announce reply with at most that many peers of either family and every scrape reply with at most that many entries is no longer than the mio / io_uring send buffer (regenerated sizes); a configuration is refused iff one of its two worst-case replies does not fit; defaults accepted; exact boundaries 454/455 (mio), 112/113 and 170/171 (io_uring); the HTTP frame carries the complete body for every body length. Tie: trackers started at and just over the boundary (must deliver the largest IPv6 announce reply whole / must refuse to start), HTTP scrapes of 56..64 raw hashes under default limits. Receive side of io_uring: finding F6.",
+    level_note="partial: the HTTP request buffer (2048 bytes) bounds the requests that are accepted at all, so no accepted request is lost to it; kernel socket buffers are not modelled.",
+    design_ref="§8 C18",
+    assumptions=["replies are awaited for a bounded time"],
+)
+
